@@ -56,6 +56,7 @@ static double x0_of(int fun, int k) {
   return (fun == 4) ? 0.0 : root_of(fun) + 1e-3;   // flat derivative at the start for x^2-4, close to the root otherwise
 }
 
+struct Runaway {};   // thrown by the function when the solver has called it far more often than any budget allows (endless loop)
 struct Verdict { std::string cls = "ok"; std::string detail; bool converged = false; long iters = 0; size_t fcalls = 0; bool fault_hit = false; double x = 0; };
 
 static Verdict run(const Case& cs) {
@@ -66,6 +67,7 @@ static Verdict run(const Case& cs) {
   auto f = [&](const double x) {
     double val, der; eval(cs.fun, x, val, der);
     const size_t k = log.f.size(); bool faulted = false;
+    if (k > size_t(3 + 2 * cs.im) + 16) throw Runaway{};
     if (cs.region == 1 && x > root_of(cs.fun) + 0.75) { val = nan; faulted = true; }
     if (cs.region == 2 && x < mid - 0.25 && std::isfinite(mid)) { val = nan; faulted = true; }
     if (k < 32 && ((cs.mask >> k) & 1u)) {
@@ -85,7 +87,9 @@ static Verdict run(const Case& cs) {
   };
   tfel::math::ScalarNewtonRaphsonParameters<double, int> p;
   p.x0 = x0_of(cs.fun, cs.x0); p.im = cs.im; p.xmin0 = lo; p.xmax0 = hi;
-  const auto res = tfel::math::scalarNewtonRaphson(f, c, p);
+  std::tuple<bool, double, int> res{false, 0.0, 0};
+  try { res = tfel::math::scalarNewtonRaphson(f, c, p); }
+  catch (Runaway&) { v.cls = "too-many-function-calls"; v.detail = "run stopped by the harness after " + std::to_string(log.f.size()) + " evaluations for im=" + std::to_string(cs.im) + " (the iteration budget no longer ends the loop)"; v.fcalls = log.f.size(); for (auto& e : log.f) if (e.faulted) v.fault_hit = true; return v; }
   v.converged = std::get<0>(res); v.x = std::get<1>(res); v.iters = std::get<2>(res); v.fcalls = log.f.size();
   for (auto& e : log.f) if (e.faulted) v.fault_hit = true;
   auto fail = [&v](const char* cl, const std::string& d) { if (v.cls == "ok") { v.cls = cl; v.detail = d; } };
